@@ -319,7 +319,34 @@ def r5(ctx):
     ctx.floor(R, 1)
 
 
+def r6(ctx):
+    R = "C15-R6"
+    ctx.rule(R, "a handle acts only on its own incarnation of a stream-table entry: entries of Tcp::sockets are keyed by SocketPair, they are "
+                "removed behind the back of live handles (the Rst arm of receive_from_network, reset_stream), and the same pair can then be "
+                "registered again once the ephemeral cursor wraps - so Tcp::close_stream_half / reset_stream / the Drop impls of the halves "
+                "must identify the entry by more than the pair (a generation / incarnation argument compared with the entry). Otherwise the "
+                "stale handle of a reset stream tears down the newer live stream and frees its port while it is in use")
+    rf = ctx.body(R, "turmoil::host::Tcp::receive_from_network")
+    ch = ctx.w.fns.get("turmoil::host::Tcp::close_stream_half")
+    if not rf or not ch:
+        if ctx.strict and not ch:
+            ctx.bad(R, "anchor-missing:Tcp::close_stream_half", "", "close_stream_half not found")
+        return
+    removes_behind = any(True for bb, t in rf.calls(re.compile(r"^indexmap::IndexMap::(swap_remove|shift_remove|remove)$"))
+                         if "field:turmoil::host::Tcp::sockets" in Slicer(ctx.w).atoms(rf, t["args"][0]))
+    tys = ctx.w.tys[ch["crate"]]
+    params = [tys[i]["s"] for i in ch["inputs"][1:]]
+    only_pair = len(params) == 1 and params[0].endswith("SocketPair")
+    ok = not (removes_behind and only_pair)
+    ctx.inst(R, "stream-entry:incarnation", ok, ch["span"], "handles identify their own incarnation of the entry" if ok else
+             "stream-table entries are removed while handles to them exist (RST) and Tcp::close_stream_half(pair) finds the entry by SocketPair alone: after the "
+             "ephemeral cursor wraps, a new stream with the same pair is torn down by the old handle's Drop - its port (49152) is handed out again while the stream is live, "
+             "its writes fail with BrokenPipe and its peer receives a FIN it never sent")
+    ctx.floor(R, 1)
+
+
 def run(ctx):
+    r6(ctx)
     r5(ctx)
     r1(ctx)
     r2(ctx)
